@@ -1,4 +1,137 @@
-From OIDC Require Import Lib C14_Sig C14_Assertion C14_Request C14_spec.
-Theorem C14_placeholder : True.
-Proof. exact I. Qed.
-Print Assumptions C14_placeholder.
+(* C14 property theorems: JWT assertions and request objects count only when
+   signed by the named client.  Nothing but statements closed by [exact].
+   [verify] is ANY signature-verification function (go-jose's in the code);
+   [sym_verify k d] is the symbolic instance "k is the signer's key and the
+   signed bytes are intact" the correspondence run uses.  Times in ns (Z),
+   claim times in whole seconds, [round_s] = Go's Round(time.Second). *)
+From OIDC Require Import Lib C14_spec C14_proofs.
+Local Open Scope Z_scope.
+
+(* op.VerifyJWTAssertion accepts => the signature verifies, under an accepted
+   algorithm, with the key storage holds for (iss, kid); the provider's issuer is in
+   aud; unexpired; issued neither in the future nor longer ago than the max age;
+   sub = iss unless a custom subject check is configured.  Returned claims = the
+   token's claims. *)
+Theorem C14_assertion_sound :
+  forall (verify : keyid -> sigdesc -> bool) v t now tok c,
+  verify_assertion verify v t now tok = Ok c ->
+  exists d, tok = TJws d c
+    /\ (exists k, lookup_key t (c_iss c) (sd_kid d) = Some k /\ verify k d = true)
+    /\ In (sd_alg d) accepted_algs
+    /\ In (v_issuer v) (c_aud c)
+    /\ c_exp c <> 0 /\ now + v_offset v < c_exp c * second
+    /\ c_iat c <> 0 /\ c_iat c * second <= round_s (now + v_offset v)
+    /\ (v_max_age v <> 0 -> round_s (now - v_max_age v) <= c_iat c * second)
+    /\ (v_sub v = SubIsIssuer -> c_sub c = c_iss c).
+Proof. exact assertion_sound. Qed.
+Print Assumptions C14_assertion_sound.
+
+(* symbolic reading: the signer's key IS the key registered for the named client *)
+Theorem C14_assertion_signed_by_named_client :
+  forall v t now tok c,
+  verify_assertion sym_verify v t now tok = Ok c ->
+  exists d, tok = TJws d c /\ lookup_key t (c_iss c) (sd_kid d) = Some (sd_signer d) /\ sd_intact d = true.
+Proof. exact assertion_sound_symbolic. Qed.
+Print Assumptions C14_assertion_signed_by_named_client.
+
+(* the identity ClientJWTAuth returns, the JWTProfile grant hands to storage and
+   AuthorizePrivateJWTKey looks up is exactly the verified assertion's issuer *)
+Theorem C14_assertion_identity :
+  forall (verify : keyid -> sigdesc -> bool) v t cl now tok id,
+  (client_jwt_auth verify v t now tok = Ok id \/ jwt_profile_grant verify v t now tok = Ok id
+   \/ authorize_private_jwt_key verify v t cl now tok = Ok id) ->
+  exists c, verify_assertion verify v t now tok = Ok c /\ id = c_iss c.
+Proof. exact assertion_identity. Qed.
+Print Assumptions C14_assertion_identity.
+
+(* AuthorizePrivateJWTKey additionally requires the client to be registered for private_key_jwt *)
+Theorem C14_client_auth :
+  forall (verify : keyid -> sigdesc -> bool) v t cl now tok id,
+  authorize_private_jwt_key verify v t cl now tok = Ok id ->
+  (exists c, verify_assertion verify v t now tok = Ok c /\ id = c_iss c)
+  /\ lookup_client cl id = Some private_key_jwt.
+Proof. exact client_auth. Qed.
+Print Assumptions C14_client_auth.
+
+(* ParseRequestObject overrides parameters => the object is signed (accepted alg) with
+   the key storage holds for (requesting client, kid), iss = inner client_id = outer
+   client_id, the provider's issuer is in aud, response_type absent or equal; the
+   result is exactly CopyRequestObjectToAuthRequest.  Storage contract: no key is
+   registered under the empty client id. *)
+Theorem C14_request_object :
+  forall (verify : keyid -> sigdesc -> bool) t issuer outer tok a,
+  no_empty_client t = true ->
+  parse_request_object verify t issuer outer tok = Ok a ->
+  exists d ro, tok = TJws d ro
+    /\ (exists k, lookup_key t (ar_client_id outer) (sd_kid d) = Some k /\ verify k d = true)
+    /\ In (sd_alg d) accepted_algs
+    /\ ro_iss ro = ar_client_id outer
+    /\ ar_client_id (ro_req ro) = ar_client_id outer
+    /\ In issuer (ro_aud ro)
+    /\ (ar_response_type (ro_req ro) = "" \/ ar_response_type (ro_req ro) = ar_response_type outer)
+    /\ a = copy_request_object outer (ro_req ro).
+Proof. exact request_object_sound. Qed.
+Print Assumptions C14_request_object.
+
+(* conversely, under those conditions the parameters are overridden and `request` is cleared *)
+Theorem C14_request_object_complete :
+  forall (verify : keyid -> sigdesc -> bool) t issuer outer d ro,
+  ro_iss ro = ar_client_id outer ->
+  ar_client_id (ro_req ro) = ar_client_id outer ->
+  (ar_response_type (ro_req ro) = "" \/ ar_response_type (ro_req ro) = ar_response_type outer) ->
+  In issuer (ro_aud ro) ->
+  sd_wf d = true -> In (sd_alg d) accepted_algs ->
+  (exists k, lookup_key t (ar_client_id outer) (sd_kid d) = Some k /\ verify k d = true) ->
+  run_request_object verify t issuer outer (TJws d ro)
+  = (None, copy_request_object outer (ro_req ro), true).
+Proof. exact request_object_complete. Qed.
+Print Assumptions C14_request_object_complete.
+
+(* in every other case the request is rejected and nothing was overridden *)
+Theorem C14_request_object_rejected_untouched :
+  forall (verify : keyid -> sigdesc -> bool) t issuer outer tok,
+  (exists a, parse_request_object verify t issuer outer tok = Ok a)
+  \/ (exists e, run_request_object verify t issuer outer tok = (Some e, outer, false)).
+Proof. exact request_object_rejected_untouched. Qed.
+Print Assumptions C14_request_object_rejected_untouched.
+
+(* an accepted object never changes client_id or response_type *)
+Theorem C14_request_object_keeps_client :
+  forall outer inner,
+  ar_client_id (copy_request_object outer inner) = ar_client_id outer
+  /\ ar_response_type (copy_request_object outer inner) = ar_response_type outer.
+Proof. exact copy_keeps_client. Qed.
+Print Assumptions C14_request_object_keeps_client.
+
+(* what the client helpers build (iss = sub = client, aud has the issuer, iat = the
+   build instant tb in seconds, exp at most 1 h later and still ahead) is accepted
+   when the key is registered, the algorithm is accepted, the offset is >= 0 and the
+   max age is 0 or >= 1 h (the provider uses 1 h / 1 s).  [verify] must accept what
+   the registered key really signed. *)
+Theorem C14_interop :
+  forall (verify : keyid -> sigdesc -> bool) v t now tb client kid key alg auds e,
+  (forall d, sd_intact d = true -> verify (sd_signer d) d = true) ->
+  lookup_key t client kid = Some key ->
+  In alg accepted_algs -> In (v_issuer v) auds ->
+  0 <= v_offset v -> (v_max_age v = 0 \/ 3600 * second <= v_max_age v) ->
+  second <= tb -> tb <= now ->
+  now + v_offset v < e * second -> e <= tb / second + 3600 ->
+  let c := mkClaims client client auds (tb / second) e in
+  verify_assertion verify v t now (TJws (mkSig true alg kid key true) c) = Ok c.
+Proof. exact interop. Qed.
+Print Assumptions C14_interop.
+
+(* the property predicate the check evaluates on the implementation's answers holds
+   for the model on every input (clock bracket ordered; storage contract; helper-built
+   assertions carry an accepted algorithm - see C14_interop_eddsa_refuted) *)
+Theorem C14_spec_holds :
+  forall i, wf i = true -> helper_alg_accepted i = true -> spec i (model i) = true.
+Proof. exact spec_model. Qed.
+Print Assumptions C14_spec_holds.
+
+(* recorded finding Fxx-C14-1: without the algorithm guard the interop clause fails -
+   a helper-built EdDSA assertion for a registered Ed25519 key is rejected *)
+Theorem C14_interop_eddsa_refuted :
+  exists i, wf i = true /\ spec i (model i) = false.
+Proof. exact eddsa_refuted_ex. Qed.
+Print Assumptions C14_interop_eddsa_refuted.
